@@ -1,6 +1,7 @@
 package main
 
 import (
+	"os"
 	"fmt"
 	"go/ast"
 	"go/constant"
@@ -561,11 +562,11 @@ func (v *FV) callMods(fr *Frame, cc *ssa.CallCommon, mod map[string]bool, all *b
 		}
 		return
 	}
-	if callee != nil && callee.Blocks != nil && depth < 4 && v.inlinable(callee) {
-		scanFn(callee, depth+1, nil)
+	if v.isNoEffect(cc, callee) {
 		return
 	}
-	if v.isNoEffect(cc, callee) {
+	if callee != nil && callee.Blocks != nil && depth < 4 && v.inlinable(callee) {
+		scanFn(callee, depth+1, nil)
 		return
 	}
 	if lk := v.lockCall(cc); lk != "" {
@@ -573,6 +574,9 @@ func (v *FV) callMods(fr *Frame, cc *ssa.CallCommon, mod map[string]bool, all *b
 		// lock acquisition havocs protected fields
 		*all = *all || v.lockHasDecl(fr, cc)
 		return
+	}
+	if os.Getenv("GOVC_DEBUG_MOD") != "" {
+		fmt.Fprintln(os.Stderr, "modifiedIn: unknown effect of", v.calleeName(cc, callee))
 	}
 	*all = true
 }
